@@ -22,10 +22,26 @@ PROPS = {
                     "contract (assumed) plus a bounded latency-randomised run."),
 }
 
+PROPS["C02"] = dict(
+    level="proof", needs_ext=True,
+    technique="contract-based deductive verification of the Python selection algebra (own VC generator, z3); C++ reader under an assumed contract with an exhaustive small-scope bounded stand-in",
+    level_text="The functions that normalise a selection (_process_slice, _slice2rows, _fix_range, _get_slice_nrows, _get_rows2read, "
+               "get_colnum, get_colnums, reduce_array, split_fields) are proved against contracts that state Python slice semantics "
+               "(spec functions py_bound/py_count, validated against slice.indices), 'distinct rows ascending', 'columns in file order', "
+               "'out-of-range rejected' and the C++ reader's argument preconditions. The C++ skip-and-read loops and the bracket/keyword "
+               "dispatch are compared, bounded and labelled, with indexing the fully-read table for every access style on small files.",
+    level_note="Trusted: esvc, z3; numpy where/unique/atleast_1d/astype contracts (nplib catalogue); column names modelled as integers "
+               "(only == is applied); the C++ reader (records.cpp read_columns / read_binary_slice) is an assumed contract - its behaviour "
+               "is only checked bounded (tables of 1..7 rows, 4 columns, 5 delimiters). read/__getitem__/RecfileColumnSubset dispatch is "
+               "covered by the bounded layer only.",
+    explanation="Proved: selection normalisation functions (46 named obligations). Bounded (labelled): ~13k whole-path cases per run "
+                "comparing sf[...] / read(...) / chained / split / reduce results with numpy indexing of the full table.",
+    limit_quick=60)
+
 for _k in range(1, 21):
     PROPS.setdefault("C%02d" % _k, dict(level="other", needs_ext=True, explanation="see DESIGN.md section 8"))
 
 
-CLAIMED = {"C20"}
+CLAIMED = {"C20", "C02"}
 NOT_APPLICABLE = {("C%02d" % k): "check not built yet (implementation in progress; plan in DESIGN.md section 8)"
                   for k in range(1, 21) if ("C%02d" % k) not in CLAIMED}
